@@ -10,6 +10,7 @@ import (
 	"lunar/engine/streams/stream"
 	"lunar/toolkit-core/clock"
 	"lunar/toolkit-core/jsonpath"
+	"lunar/toolkit-core/verifhook"
 	"strconv"
 	"strings"
 	"sync"
@@ -160,6 +161,8 @@ func (q *quota) Inc(APIStream publicTypes.APIStreamI) incResult {
 			q.allowedByReqID[reqID] = true
 		}
 		q.storeCountIntoContext(currentCount, q.currentCountKey)
+		verifhook.Point("fw.inc", "key", q.quotaKey, "req", reqID, "by", incrBy,
+			"count", currentCount, "restarted", windowRestarted, "res", q.allowedByReqID[reqID])
 	}
 	if q.allowedByReqID[reqID] {
 		return increased
